@@ -221,7 +221,31 @@ pub fn build_world(seed: u64, tokens: &str, rewards: bool, adaptive: bool, rec: 
     (w, sc)
 }
 
+/// Attempts to create tick arrays at start indexes that are not multiples of 88 tick spacings - next to a valid one, and
+/// just below the minimum tick, where the left-most array must still sit on the grid - or lie beyond the tick range.
+fn bad_tick_array_starts(w: &mut World, sc: &Scenario, rec: &mut Recorder) {
+    let s = w.pools[&sc.pool].spacing as i32;
+    let span = s * 88;
+    let t = w.pool_tick(&sc.pool);
+    let good = t.div_euclid(span) * span;
+    let leftmost = MIN_TICK.div_euclid(span) * span;
+    let cands = [good + 1, good - 1, good + s, good + span / 2, leftmost + s, leftmost + 1, MIN_TICK - 12, MIN_TICK - s, MIN_TICK, leftmost - span, (MAX_TICK.div_euclid(span) + 1) * span, MAX_TICK + 1];
+    for _ in 0..3 {
+        let start = pick(w, &cands);
+        if start.rem_euclid(span) == 0 && start + span > MIN_TICK && start <= MAX_TICK {
+            continue; // a valid one
+        }
+        let mut c = w.clone();
+        let dynamic = c.rng.gen_bool(0.5);
+        let ix = c.ix_init_tick_array(&sc.pool, start, dynamic);
+        rec.exec(&mut c, &ix, false, json!({"probe": true, "what": "invalid_tick_array_start"}));
+    }
+}
+
 fn open_random_position(w: &mut World, sc: &Scenario, rec: &mut Recorder) {
+    if w.rng.gen_bool(0.15) {
+        bad_tick_array_starts(w, sc, rec);
+    }
     let owner = pick(w, &sc.users);
     let (lo, up) = loop {
         let a = pick(w, &sc.bounds);
@@ -711,6 +735,32 @@ fn reward_step(w: &mut World, sc: &Scenario, rec: &mut Recorder, pos: &[String],
                 rec.exec(w, &ix, false, json!(null));
             }
             let ix = w.ix_collect_reward(&p, &owner, i, v2);
+            rec.exec(w, &ix, false, json!(null));
+        }
+        75..=80 if nrew > 0 && !pos.is_empty() => {
+            // a position that earned rewards is emptied and its fees collected, then closed while its rewards are still owed
+            // (refused), then after collecting them (accepted): plain, token-extension and bundled positions alike
+            let t = w.pool_tick(&pool);
+            let in_range: Vec<String> = pos.iter().filter(|n| w.pos_range(n).map(|(l, lo, up)| l > 0 && lo <= t && t < up).unwrap_or(false)).cloned().collect();
+            if in_range.is_empty() {
+                return;
+            }
+            let p = pick(w, &in_range);
+            let owner = w.positions[&p].owner.clone();
+            let dt = pick(w, &[60i64, 3600, 86400]);
+            rec.tick_clock(w, dt);
+            let (l, _, _) = w.pos_range(&p).unwrap();
+            let ix = w.ix_decrease(&p, &owner, l, 0, 0, v2);
+            rec.exec(w, &ix, false, json!(null));
+            let ix = w.ix_collect_fees(&p, &owner, v2);
+            rec.exec(w, &ix, false, json!(null));
+            let ix = w.ix_close_position(&p, &owner);
+            rec.exec(w, &ix, false, json!("close_with_rewards_owed"));
+            for i in 0..nrew as u8 {
+                let ix = w.ix_collect_reward(&p, &owner, i, v2);
+                rec.exec(w, &ix, false, json!(null));
+            }
+            let ix = w.ix_close_position(&p, &owner);
             rec.exec(w, &ix, false, json!(null));
         }
         70..=74 => {
